@@ -700,6 +700,23 @@ fn make_effect(kind: i64, id: usize, e: Expr, hd: Expr, lower: Arc<Vec<Handle>>,
     let l2 = lower.clone();
     match (kind, var) {
         (0, 1) => EffHandle::Iso(Effect::new_sync(move |_: Option<Ret>| run_effect_body(id, &e, &lower))),
+        // a closure without the previous-value argument (EffectFunction<(), NoParam>)
+        (0, 2) => EffHandle::Eff(Effect::new(move || {
+            run_effect_body(id, &e, &lower);
+        })),
+        #[allow(deprecated)]
+        (0, 3) => EffHandle::Eff(reactive_graph::effect::create_effect(move |_: Option<Ret>| {
+            run_effect_body(id, &e, &lower)
+        })),
+        #[allow(deprecated)]
+        (2 | 3, 2) => EffHandle::Stop(Box::new(reactive_graph::effect::watch(
+            move || run_effect_body(id, &e, &lower).v,
+            move |_new: &i64, _old: Option<&i64>, _prev: Option<i64>| run_handler(id, &hd, &l2),
+            kind == 3,
+        ))),
+        (4, 1) => EffHandle::Iso(Effect::new_isomorphic(move || {
+            run_effect_body(id, &e, &lower);
+        })),
         (0, _) => EffHandle::Eff(Effect::new(move |_: Option<Ret>| run_effect_body(id, &e, &lower))),
         (1, 1) => EffHandle::Render(Some(RenderEffect::new_isomorphic(move |_: Option<Ret>| {
             run_effect_body(id, &e, &lower)
@@ -933,6 +950,7 @@ fn exec_reset() {
 // ------------------------------------------------------------------ one case
 enum EffHandle {
     Gone,
+    Stop(Box<dyn Fn()>), // the stop closure the deprecated `watch` function returns
     Eff(Effect<LocalStorage>),
     Iso(Effect<SyncStorage>),
     Render(Option<RenderEffect<Ret>>),
@@ -1265,6 +1283,7 @@ fn run_case(c: &Sexp, mask: u8) -> Sexp {
                             EffHandle::Iso(h) => if how == 2 { h.stop() } else { h.dispose() },
                             EffHandle::Render(h) => drop(h),
                             EffHandle::Imm(h) => drop(h),
+                            EffHandle::Stop(stop) => stop(),
                             EffHandle::Gone => {}
                         }
                     }
